@@ -5,7 +5,7 @@
 From Noir Require Import Base.Elem Model.Start Model.Ops Model.WinCount Model.WindowOp Model.WinEvent
   Model.BinaryStart Model.Fan
   Proofs.StartSpec Proofs.WinCountSpec Proofs.OpsSpec
-  Proofs.StartProofs Proofs.OpsProofs Proofs.FanProofs.
+  Proofs.StartProofs Proofs.OpsProofs Proofs.FanProofs Model.Ops2 Proofs.Ops2Proofs.
 Open Scope Z_scope.
 
 (** A block fed by n replicas forwards only what is safe for all of them: for ANY arrival
@@ -45,6 +45,29 @@ Theorem C06_count_window_exact : forall {A B C} (acc0 : B) (proc : B -> A -> B) 
     (l : list (elem (Z * A))), only_tst l -> wm_safe l = true ->
   wm_safe (run (wop_machine (wc_mgr acc0 proc out size slide true)) l) = true.
 Proof. exact @wc_wop_wm_safe_exact. Qed.
+(** every element-wise API operator (filter_map, flatten, inspect, rich_map, rich_flat_map,
+    rich_filter_map, plain or keyed: instances of [sflat_machine]) preserves the contract *)
+Theorem C06_elementwise : forall {S A B} (f : S -> A -> S * list B) (s0 : S) l,
+  wm_safe l = true -> wm_safe (run (sflat_machine f s0) l) = true.
+Proof. exact @sflat_wm_safe. Qed.
+(** add_timestamps CREATES the watermarks from user functions: with timestamps increasing
+    strictly within each iteration and the generator "timestamp minus a fixed lag, or nothing"
+    its output respects the contract; the monotonicity is the user's obligation
+    ([C06_add_timestamps_needs_monotone]: the operator does not enforce it). *)
+Theorem C06_add_timestamps : forall {A} (tg : A -> Z) (wg : A -> Z -> option Z) (d : Z),
+  0 <= d -> (forall v t w, wg v t = Some w -> w = t - d) ->
+  forall l, no_ts l -> inc_from tg None l = true ->
+  wm_safe (run (add_ts_machine tg wg) l) = true.
+Proof. exact @add_ts_wm_safe. Qed.
+Theorem C06_add_timestamps_needs_monotone :
+  wm_safe (run (add_ts_machine (fun v : Z => v) (fun _ t => Some t)) [Item 5; Item 3]) = false.
+Proof. exact add_ts_unsafe_when_not_increasing. Qed.
+Example C06_add_timestamps_nonvacuous :
+  no_ts ([Item 1; Item 4; FAR; Item 2; Terminate] : list (elem Z)) /\
+  (inc_from (fun v : Z => v) None [Item 1; Item 4; FAR; Item 2; Terminate] = true).
+Proof. split; [|reflexivity]. intros e [<-|[<-|[<-|[<-|[<-|[]]]]]]; exact I. Qed.
+Theorem C06_drop_timestamps : forall {A} (l : list (elem A)), wm_safe (run drop_ts_machine l) = true.
+Proof. exact @drop_ts_wm_safe. Qed.
 Theorem C06_chain : forall {A B C} (m1 : machine (elem A) (elem B)) (m2 : machine (elem B) (elem C)),
   (forall l, wm_safe l = true -> wm_safe (run m1 l) = true) -> (forall l, wm_safe l = true -> wm_safe (run m2 l) = true) ->
   forall l, wm_safe l = true -> wm_safe (run (compose m1 m2) l) = true.
@@ -62,3 +85,5 @@ Proof. exact wc_nonexact_wm_unsafe. Qed.
 Print Assumptions C06_block_input.
 Print Assumptions C06_event_time_window.
 Print Assumptions C06_reorder.
+Print Assumptions C06_elementwise.
+Print Assumptions C06_add_timestamps.
